@@ -45,6 +45,21 @@ const void *g_qs_base;
 size_t g_qs_n, g_qs_sz, g_qs_calls;
 aws_array_list_comparator_fn *g_qs_cmp;
 
+size_t g_mm;        /* memmove: offset (inside the moved range) of the witness byte */
+
+/* ---- libc memmove: ASSUMED contract (C standard: the n bytes at src are copied to dest as if through a temporary
+ * buffer, nothing else is written, dest is returned), stated for ONE arbitrary byte g_mm of the moved range.
+ * Needed because CBMC 6.11's built-in memmove model does not terminate (array post-processing) when source and
+ * destination lie in the same object of symbolic size at symbolic offsets - exactly the array list's use.
+ * n > 0 holds at all three call sites (push_front, pop_front_n, erase) and is an obligation there. */
+#define AL_MM_IDX(n) (g_mm * (size_t)(g_mm < (n)))
+void *memmove(void *dest, const void *src, size_t n)
+__CPROVER_requires(n > 0 && __CPROVER_r_ok(src, n) && __CPROVER_w_ok(dest, n))
+__CPROVER_assigns(__CPROVER_object_upto(dest, n))
+__CPROVER_ensures(__CPROVER_pointer_equals(__CPROVER_return_value, dest))
+__CPROVER_ensures(g_on ==> ((const uint8_t *)dest)[AL_MM_IDX(n)] == __CPROVER_old(((const uint8_t *)src)[AL_MM_IDX(n)]))
+;
+
 /* DFCC starts every harness with NONDET globals: reset all ghost switches, then switch on what the harness needs */
 #define AL_GHOST_RESET() do { GHOST_RESET_COMMON(); g_zero_on = false; g_rz = 0; g_rsize = 0; g_qs_calls = 0; } while (0)
 
@@ -234,6 +249,7 @@ AWS_STATIC_IMPL int aws_array_list_push_front(struct aws_array_list *AWS_RESTRIC
 __CPROVER_requires(AL_OK(list))
 __CPROVER_requires(__CPROVER_is_fresh(val, ISZ))
 AL_REQ_WITNESS(list)
+__CPROVER_requires(g_on ==> g_mm == g_k) /* ghost only: the memmove witness is the byte that holds old byte g_k */
 __CPROVER_assigns(AL_ENSURE_OK(list, list->length) : list->length)
 __CPROVER_assigns(AL_GROWS(list, list->length) : list->data, list->current_size)
 __CPROVER_assigns(AL_FITS(list, list->length) : __CPROVER_object_upto(AL_BYTES(list), (list->length + 1) * ISZ))
@@ -275,6 +291,7 @@ __CPROVER_ensures(list->length == 0 && AL_INV(list))
 AWS_STATIC_IMPL void aws_array_list_pop_front_n(struct aws_array_list *AWS_RESTRICT list, size_t n)
 __CPROVER_requires(AL_OK(list))
 AL_REQ_WITNESS(list)
+__CPROVER_requires(g_on ==> g_mm == g_k - n * ISZ) /* ghost only */
 __CPROVER_assigns((n >= list->length && list->data != NULL) || AL_POPN_MOVES(list, n) : list->length)
 __CPROVER_assigns(AL_POPN_MOVES(list, n) : __CPROVER_object_upto(AL_BYTES(list), (list->length - n) * ISZ))
 __CPROVER_ensures(list->length == (n >= OLD(list->length) ? 0 : OLD(list->length) - n))
@@ -286,6 +303,7 @@ __CPROVER_ensures(g_on && n < OLD(list->length) && g_k >= n * ISZ && g_k < OLD(l
 AWS_STATIC_IMPL int aws_array_list_pop_front(struct aws_array_list *AWS_RESTRICT list)
 __CPROVER_requires(AL_OK(list))
 AL_REQ_WITNESS(list)
+__CPROVER_requires(g_on ==> g_mm == g_k - ISZ) /* ghost only */
 __CPROVER_assigns(list->length > 0 : list->length)
 __CPROVER_assigns(list->length > 1 : __CPROVER_object_upto(AL_BYTES(list), (list->length - 1) * ISZ))
 AL_ERR_FRAME(list->length == 0)
@@ -301,6 +319,7 @@ __CPROVER_ensures(g_on && g_k >= ISZ && g_k < OLD(list->length) * ISZ ==> AL_BYT
 AWS_STATIC_IMPL int aws_array_list_erase(struct aws_array_list *AWS_RESTRICT list, size_t index)
 __CPROVER_requires(AL_OK(list))
 AL_REQ_WITNESS(list)
+__CPROVER_requires(g_on ==> g_mm == g_k - (index + 1) * ISZ) /* ghost only */
 __CPROVER_assigns(index < list->length : list->length, __CPROVER_object_upto(AL_BYTES(list) + index * ISZ, (list->length - index) * ISZ))
 AL_ERR_FRAME(index >= list->length)
 __CPROVER_ensures(RET == AWS_OP_SUCCESS || RET == AWS_OP_ERR)
